@@ -23,8 +23,8 @@ EXTENDS FsModel, Json, IOUtils
 
 Rec == ndJsonDeserialize(IOEnv.TRACE)
 
-VARIABLES l, fs, saved, cur, phase
-vars == <<l, fs, saved, cur, phase>>
+VARIABLES l, fs, saved, prev, cur, phase
+vars == <<l, fs, saved, prev, cur, phase>>
 
 Apply(f, r) ==
   CASE r.e = "open"      -> FsOpen(f, r.p, r.creat, r.trunc)
@@ -36,7 +36,7 @@ Apply(f, r) ==
     [] r.e = "unlink"    -> FsUnlink(f, r.p)
     [] OTHER             -> f
 
-Init == l = 0 /\ fs = EmptyFs /\ saved = 0 /\ cur = 0 /\ phase = "idle"
+Init == l = 0 /\ fs = EmptyFs /\ saved = 0 /\ prev = 0 /\ cur = 0 /\ phase = "idle"
 
 Next ==
   /\ l < Len(Rec)
@@ -44,12 +44,12 @@ Next ==
   /\ LET r == Rec[l + 1] IN
        /\ fs' = Apply(fs, r)
        /\ IF r.e = "mark" /\ r.w = "begin"
-          THEN cur' = r.v /\ saved' = saved /\ phase' = "during"
+          THEN cur' = r.v /\ phase' = "during" /\ UNCHANGED <<saved, prev>>
           ELSE IF r.e = "mark" /\ r.w = "end"
-          THEN cur' = 0 /\ saved' = cur /\ phase' = "after"
+          THEN cur' = 0 /\ saved' = cur /\ prev' = saved /\ phase' = "after"
           ELSE IF phase = "after"
-          THEN phase' = "idle" /\ UNCHANGED <<saved, cur>>
-          ELSE UNCHANGED <<saved, cur, phase>>
+          THEN phase' = "idle" /\ UNCHANGED <<saved, prev, cur>>
+          ELSE UNCHANGED <<saved, prev, cur, phase>>
 
 Spec == Init /\ [][Next]_vars
 
@@ -61,14 +61,11 @@ Emit ==
      /\ PrintT(<<"IMAGE", ToJson([at |-> l, kind |-> "process", phase |-> phase,
                                   allowed |-> IF phase = "during" THEN {saved, cur} ELSE {saved},
                                   strict |-> TRUE,
-                                  names |-> DOMAIN ProcImage(fs),
                                   img |-> ImgJson(ProcImage(fs))])>>)
      /\ \A img \in PowerImages(fs) :
           PrintT(<<"IMAGE", ToJson([at |-> l, kind |-> "power", phase |-> phase,
-                                    allowed |-> IF phase = "during" THEN {saved, cur}
-                                                ELSE {saved} \cup {Rec[k].v : k \in {j \in 1..l : Rec[j].e = "mark" /\ Rec[j].w = "begin"}},
+                                    allowed |-> IF phase = "during" THEN {saved, cur} ELSE {prev, saved},
                                     strict |-> (img = StrictPowerImage(fs)),
-                                    names |-> DOMAIN img,
                                     img |-> ImgJson(img)])>>)
 
 Done == (l = Len(Rec)) => PrintT(<<"DONE", l>>)
